@@ -1340,6 +1340,15 @@ func makeTaskForMesosResources(
 	offerIDsToDecline map[mesos.OfferID]struct{},
 ) (*Task, *mesos.TaskInfo) {
 
+	// Static port ranges are claimed first, dynamic and control ports are picked among the rest
+	staticPortsBuilder := resources.BuildRanges()
+	for _, rng := range wants.StaticPorts {
+		staticPortsBuilder = staticPortsBuilder.Span(rng.Begin, rng.End)
+	}
+	remainingResourcesInOffer.Subtract(resources.Build().
+		Name(resources.Name("ports")).
+		Ranges(staticPortsBuilder.Ranges.Sort().Squash()).Resource)
+
 	bindMap := make(channel.BindMap)
 	for _, ch := range wants.InboundChannels {
 		if len(ch.Target) != 0 { // static bind address, not matched: nothing to allocate or advertise
